@@ -203,7 +203,7 @@ pub fn gen_case(seed: u64, k: u64, tier: Tier) -> Case {
     // only specifiers that are entries of the graph are edited and reloaded
     let in_graph: BTreeSet<String> = entries(&g).iter().map(|(s, _)| s.to_string()).collect();
     let (w2, edited) = edit_world(&mut rng, &c.world, &in_graph);
-    let c2 = BuiltCase { world: w2.clone(), roots: roots.clone(), bcfg: c.bcfg.clone(), unstable: c.unstable, max_redirects: c.max_redirects };
+    let c2 = BuiltCase { lock: None, world: w2.clone(), roots: roots.clone(), bcfg: c.bcfg.clone(), unstable: c.unstable, max_redirects: c.max_redirects };
     let log = real_reload(&c2, &mut g, &edited);
     let mut alt = ModuleGraph::new(kind);
     real_build(&c2, &mut alt, &roots, &imports);
@@ -217,7 +217,7 @@ pub fn gen_case(seed: u64, k: u64, tier: Tier) -> Case {
   }
   graphs.push(final_graph.clone());
   // interning over everything
-  let c_second = edited_world.as_ref().map(|w| BuiltCase { world: w.clone(), roots: roots.clone(), bcfg: c.bcfg.clone(), unstable: c.unstable, max_redirects: c.max_redirects });
+  let c_second = edited_world.as_ref().map(|w| BuiltCase { lock: None, world: w.clone(), roots: roots.clone(), bcfg: c.bcfg.clone(), unstable: c.unstable, max_redirects: c.max_redirects });
   for cc in [Some(&c), c_second.as_ref()].into_iter().flatten() {
     let (_, s) = parse_world(cc);
     strings.extend(s);
